@@ -1,5 +1,5 @@
 """property id -> rules, explanation of what is / is not decided"""
-from rules import r_coord, r_keyid, r_opcode, r_doaction, r_cancel, r_idle, r_loop, r_traverse, r_repeat, r_chv2, r_wait, r_macro, r_seq, r_override, r_reload, r_pipeline, r_dynmacro, r_vkey, r_layers, r_panic, r_prodcons, r_span, r_rec, r_evict
+from rules import r_coord, r_keyid, r_opcode, r_doaction, r_cancel, r_idle, r_loop, r_traverse, r_repeat, r_chv2, r_wait, r_macro, r_seq, r_override, r_reload, r_pipeline, r_dynmacro, r_vkey, r_layers, r_panic, r_prodcons, r_span, r_rec, r_evict, r_coordspace
 
 PROPS = {
     "C01": {
@@ -11,7 +11,7 @@ PROPS = {
         "not_decided": "bounded-time liveness over all histories; diff logic prev_keys/cur_keys; timeout arithmetic",
     },
     "C02": {
-        "rules": [r_panic.run_rt, r_prodcons.run, r_rec.run_rt],
+        "rules": [r_panic.run_rt, r_prodcons.run, r_rec.run_rt, r_coordspace.run],
         "explanation": "Decides: (R-PANIC/rt) every panic-capable site (bounds check, slice/Vec index, unsigned subtraction, narrow "
                        "addition/multiplication, negation, division, shift, unwrap/expect, assert!/unreachable!/panic!) in the "
                        "functions reachable from the event/tick entry points is either discharged by the guard data-flow (constant "
@@ -26,7 +26,7 @@ PROPS = {
                        "caller's own action, never from stored state (except the reviewed defsrc row)",
     },
     "C03": {
-        "rules": [r_panic.run_parse, r_span.run, r_rec.run_parse],
+        "rules": [r_panic.run_parse, r_span.run, r_rec.run_parse, r_coordspace.run],
         "explanation": "Decides: (R-SPAN) the lexer only compares bytes with ASCII constants, Span/Position are built or modified "
                        "only in the s-expression module, the single post-hoc span adjustment is guarded by a test selecting exactly "
                        "one lexer message, and text is indexed by a span only through Index<Span> on that span's own file_content(); "
@@ -65,7 +65,7 @@ PROPS = {
         "not_decided": "which key is 'the next one', timeout arithmetic, stacking semantics — run-time values",
     },
     "C11": {
-        "rules": [r_keyid.run_all, r_layers.rule_mapped],
+        "rules": [r_keyid.run_all, r_layers.rule_mapped, r_coordspace.run],
         "level": "proof",
         "explanation": "Decides: (a) OsCode and KeyCode have identical discriminant sets and are repr(u16) — the exact soundness "
                        "condition of every enum transmute in the analysed crates, which are enumerated; (b) each arm n of "
